@@ -233,3 +233,35 @@ Proof. exact text_specialnets. Qed.
 Theorem C20_text_rows_tracks : forall t s d, wf_tree t = true -> t_comment t = None -> Rel s (words t) -> def_of_text s = Some d ->
   Forall2 (fun x r => x = Some r) (rows_of t) (df_rows d) /\ Forall2 (fun x r => x = Some r) (tracks_of t) (df_tracks d).
 Proof. exact text_rows_tracks. Qed.
+
+(** ** source tie (translation): the four data-extraction properties of def_file.py, translated from the CURRENT source text
+    (Gen/DefRouteSrc.v, translate/gen_def_route.py) onto Python values, ARE the hand model Model/DefRoute.v the theorems above
+    are stated on -- for every DefWire object that holds a routing statement of the model's domain ([wire_enc]: points = a
+    fully specified first point followed by points with optional '*' / extension value and vias with None / orientation /
+    DO-BY-STEP parameter; width None or anything int() reads) and every DefNet whose routed list holds such objects.
+    The translated code never raises there; no further precondition. *)
+From KV Require Import Model.DefRouteSrcLib Gen.DefRouteSrc Proofs.DefRouteSrcProofs.
+Theorem C20_route_source_is_model :
+  (forall w d, wire_enc w d ->
+     DefWire_wire_points_src d = Some (PList (map enc_pt (wire_points w))) /\
+     DefWire_vias_src d = Some (enc_dd enc_vplace (wire_vias w))) /\
+  (forall ws n, Forall2 wire_enc ws (s_routed n) ->
+     DefNet_wires_src n = Some (enc_dd enc_wseg (net_wires ws)) /\
+     DefNet_vias_src n = Some (enc_dd enc_vplace (net_vias ws))).
+Proof. exact route_source_is_model. Qed.
+(* composed with the callbacks: on the DefNet object the transformer builds for a net ([enc_dnet]: widths as token texts) the
+   translated properties return the listings callbacks ; DefRoute define, whenever those are defined *)
+Theorem C20_dnet_source_is_model : forall (n : dnet) (ww : dd wseg) (vv : dd vplace),
+  (dnet_wires n = Some ww -> DefNet_wires_src (enc_dnet n) = Some (enc_dd enc_wseg ww)) /\
+  (dnet_vias n = Some vv -> DefNet_vias_src (enc_dnet n) = Some (enc_dd enc_vplace vv)).
+Proof. exact dnet_source_is_model. Qed.
+(* non-vacuity: ( 100 200 ) ( * 500 35 ) V12 ( 0 * ) V23 DO 2 BY 3 STEP 10 -20  V12 with width text "140" is in the domain,
+   and the translated code computes the resolved points (explicit 0 kept, extension kept) and all 2 x 3 array members *)
+Theorem C20_route_source_nonvacuous :
+  wire_enc ex_wire ex_dwire /\
+  DefWire_wire_points_src ex_dwire = Some (PList [PTup [PInt 100; PInt 200]; PTup [PInt 100; PInt 500; PInt 35]; PTup [PInt 0; PInt 500]]) /\
+  DefWire_vias_src ex_dwire =
+    Some [(PStr "V12", [PTup [PInt 100; PInt 500; PStr "N"]; PTup [PInt 0; PInt 500; PStr "N"]]);
+          (PStr "V23", [PTup [PInt 0; PInt 500; PStr "N"]; PTup [PInt 0; PInt 480; PStr "N"]; PTup [PInt 0; PInt 460; PStr "N"];
+                        PTup [PInt 10; PInt 500; PStr "N"]; PTup [PInt 10; PInt 480; PStr "N"]; PTup [PInt 10; PInt 460; PStr "N"]])].
+Proof. exact ex_nonvacuous. Qed.
